@@ -19,15 +19,16 @@ var baseTime = time.Unix(1_700_000_000, 0).UTC()
 // A Scenario closes the system: who takes part with what power, who is Byzantine / silent, what every
 // honest participant proposes in every instance, the beacon (decides CONVERGE tickets) and the bounds.
 type Scenario struct {
-	Name      string
-	Powers    []int64    // power of participant i (ActorID = i+1)
-	Byz       int        // index of the Byzantine identity, -1 if none
-	Silent    []int      // crash-silent members (hold power, never send, never observed)
-	Inputs    [][]string // Inputs[instance][participant] = branch pattern, e.g. "aa", "a", "f", ""
-	Beacon    string
-	Instances int
-	MaxRound  uint64 // executions stop (bound reached) when an honest participant exceeds this round
-	OddSupp   []int  // participants whose view of the supplemental data (next power table) differs from the others'
+	Name              string
+	Powers            []int64    // power of participant i (ActorID = i+1)
+	Byz               int        // index of the Byzantine identity, -1 if none
+	Silent            []int      // crash-silent members (hold power, never send, never observed)
+	Inputs            [][]string // Inputs[instance][participant] = branch pattern, e.g. "aa", "a", "f", ""
+	Beacon            string
+	Instances         int
+	MaxRound          uint64  // executions stop (bound reached) when an honest participant exceeds this round
+	QualityMultiplier float64 // gpbft.WithQualityDeltaMultiplier, if non-zero
+	OddSupp           []int   // participants whose view of the supplemental data (next power table) differs from the others'
 }
 
 func (s *Scenario) oddSupp(i int) bool {
@@ -169,6 +170,12 @@ func coreScenarios() []*Scenario {
 		sc("w4-byz-fork", w4, 3, nil, "b1", 2, []string{"aa", "af", "a", ""}),
 		sc("dust4-byz", dust4, 0, nil, "b0", 2, []string{"", "a", "aa", "aa"}),
 		sc("dust4-honest", dust4, -1, nil, "b1", 2, []string{"aa", "a", "aa", "a"}),
+		// a fractional QUALITY timeout multiplier (a legal configuration) must not change what unanimous inputs decide
+		func() *Scenario {
+			s := sc("eq3-quality-x0.75", []int64{1, 1, 1}, -1, nil, "b0", 2, []string{"aa", "aa", "aa"})
+			s.QualityMultiplier = 0.75
+			return s
+		}(),
 	}
 }
 
@@ -179,6 +186,12 @@ func byzOnlyScenarios() []*Scenario {
 	return []*Scenario{
 		sc("skew4-byz", []int64{2, 31, 35, 32}, 3, nil, "b0", 2, []string{"a", "a", "a", ""}),
 		sc("whale4-byz", []int64{7, 1, 1, 1}, 3, nil, "b1", 2, []string{"a", "a", "aa", ""}),
+		// a Byzantine member that forms a strong quorum with the largest honest member alone
+		func() *Scenario {
+			s := sc("big4-byz", []int64{40, 20, 10, 30}, 3, nil, "", 2, []string{"a", "a", "a", ""})
+			s.Beacon = byzWinsBeacon(s, 1)
+			return s
+		}(),
 	}
 }
 
